@@ -66,6 +66,22 @@ func (c *dConv) DataForSearch(id uint64) ([2][]byte, [][2]int, uint64, uint64, b
 
 var dAlphabet = []byte("abc")
 
+// some cases use payload with a line break or a byte that is no valid UTF-8 (set per case by the driver)
+var dAlphabets = [][]byte{[]byte("abc"), []byte("abc"), []byte("abc"), []byte("abc\n"), []byte("abc\xe9"), []byte("ab\n\xe9c")}
+
+// QuoteMeta that also escapes bytes that are not ASCII (a pattern has to be valid UTF-8, the payload need not be)
+func dQuote(val string) string {
+	b := strings.Builder{}
+	for i := 0; i < len(val); i++ {
+		if val[i] >= 0x80 {
+			fmt.Fprintf(&b, `\x%02x`, val[i])
+		} else {
+			b.WriteString(binaryregexp.QuoteMeta(val[i : i+1]))
+		}
+	}
+	return b.String()
+}
+
 func dRandBytes(rng *rand.Rand, n int) []byte {
 	b := make([]byte, n)
 	for i := range b {
@@ -77,6 +93,10 @@ func dRandBytes(rng *rand.Rand, n int) []byte {
 // chunks alternate in direction (that is what the index and the cache store), the first direction is random.
 // plant (optional): bytes derived from one of the query's expressions, put into one chunk so that matches,
 // near misses and overlapping candidates are frequent.
+// echo: a chunk may repeat the previous chunk (of the other direction) framed by two bytes, so that what an
+// expression captured in one direction is likely to be found in the other
+var dEcho = false
+
 func dRandRep(rng *rand.Rand, plant []byte) *dRep {
 	r := &dRep{sizes: [][2]int{{0, 0}}}
 	n := rng.Intn(6)
@@ -100,6 +120,10 @@ func dRandRep(rng *rand.Rand, plant []byte) *dRep {
 		}
 		if i == at {
 			b = plant
+			l = len(b)
+		} else if dEcho && i > 0 && rng.Intn(2) == 0 {
+			prev := r.data[1-dir][len(r.data[1-dir])-r.chunks[i-1].N:]
+			b = append(append(dRandBytes(rng, 1), prev...), dRandBytes(rng, 1)...)
 			l = len(b)
 		}
 		r.data[dir] = append(r.data[dir], b...)
@@ -146,7 +170,7 @@ func dRandRegex(rng *rand.Rand, capture bool) string {
 	if capture {
 		// the capture must be able to hold something: wrap a consuming piece
 		k := rng.Intn(n)
-		parts[k] = "(?P<v>" + []string{"[ab]", "[abc]+", "a|b", "c", "[bc]{1,2}"}[rng.Intn(5)] + ")"
+		parts[k] = "(?P<v>" + []string{"[ab]", "[abc]+", "a|b", "c", "[bc]{1,2}", "[^c]+", "[^ab]", "a)?(?:b|"}[rng.Intn(8)] + ")"
 	}
 	rx := strings.Join(parts, "")
 	if !capture {
@@ -251,7 +275,7 @@ func dWalk(rep *dRep, repIdx, cj, c int, cond *query.DataCondition) ([]dStep, er
 			if !ok {
 				return nil, fmt.Errorf("variable %q not bound", v.Name)
 			}
-			expr = expr[:v.Position] + "(?:" + binaryregexp.QuoteMeta(val) + ")" + expr[v.Position:]
+			expr = expr[:v.Position] + "(?:" + dQuote(val) + ")" + expr[v.Position:]
 		}
 		re, err := binaryregexp.Compile(expr)
 		if err != nil {
@@ -269,6 +293,8 @@ func dWalk(rep *dRep, repIdx, cj, c int, cond *query.DataCondition) ([]dStep, er
 		for i, n := range re.SubexpNames() {
 			if n != "" && res[2*i] >= 0 {
 				vars[n] = string(buf[res[2*i]:res[2*i+1]])
+			} else if n != "" {
+				vars[n] = "" // a group that took no part in the match holds nothing
 			}
 		}
 		if res[1] != 0 {
@@ -314,6 +340,7 @@ func TestVerifDataMatch(t *testing.T) {
 		for it := 0; it < inst; it++ {
 			caseNo++
 			// ---- the query
+			dAlphabet = dAlphabets[rng.Intn(len(dAlphabets))]
 			sel := map[string]string{"all": "", "none": ".none", "c0": ".c0"}[sh.Sel]
 			shared := dRandRegex(rng, false)
 			parts := []string{}
@@ -329,7 +356,7 @@ func TestVerifDataMatch(t *testing.T) {
 					}
 					if c.Cap && k == len(c.Els)-1 {
 						// a later element uses the captured bytes
-						rx = []string{"@v@", "a@v@", "@v@[bc]", ".@v@"}[rng.Intn(4)]
+						rx = []string{"@v@", "a@v@", "@v@[bc]", ".@v@", "[abc]@v@[abc]", "^@v@", "[ab]@v@."}[rng.Intn(7)]
 					}
 					neg := ""
 					if c.Inv && k == len(c.Els)-1 {
@@ -416,6 +443,10 @@ func TestVerifDataMatch(t *testing.T) {
 				t.Fatal(err)
 			}
 			raws := map[int]*dRep{}
+			dEcho = false
+			for _, c := range sh.Conds {
+				dEcho = dEcho || c.Cap
+			}
 			convs := map[string]ConverterAccess{}
 			dcs := []*dConv{}
 			for i := 0; i < sh.NConv; i++ {
@@ -459,6 +490,16 @@ func TestVerifDataMatch(t *testing.T) {
 			r.Close()
 			os.Remove(r.Filename())
 			if err != nil {
+				if strings.Contains(err.Error(), "error parsing regexp") {
+					// the expressions of the query compile (Parse checked them): the engine built one that does not
+					js, _ := json.Marshal(map[string]any{"case": caseNo, "stream": -1, "text": text, "feat": strings.Join(fl, ","), "searcherr": err.Error()})
+					ow.Write(js)
+					ow.WriteByte('\n')
+					continue
+				}
+				if skipped["search: "+err.Error()] == 0 {
+					t.Logf("VERIF-SKIP-EXAMPLE %s: %s", err.Error(), text)
+				}
 				skipped["search: "+err.Error()]++
 				continue
 			}
